@@ -836,7 +836,10 @@ class IdToken(OpenIDSchema):
         if _exp < _iat:
             raise IATError("Expiration time can not be earlier the issued at")
 
-        if "nonce" in kwargs and "nonce" in self:
+        if "nonce" in kwargs:
+            # the nonce that was sent must come back
+            if "nonce" not in self:
+                raise MissingRequiredAttribute("nonce")
             if kwargs["nonce"] != self["nonce"]:
                 raise ValueError("Not the same nonce")
 
